@@ -66,8 +66,11 @@ def decode(ptype, v):
 class Gate:
     def __init__(self, conn, real):
         self.conn, self.real = conn, real
+        self.active = False   # only operations performed while the scheduler runs a command of this process are gated
 
     def step(self, op, key, fn):
+        if not self.active:
+            return fn()
         self.conn.send(("req", op, key))
         self.conn.recv()  # go
         try:
@@ -124,8 +127,9 @@ class GatedBase:
         return self.gate.step("load", int(i), lambda: payload(self.ptype, int(i)))
 
 
-def child_main(conn, pristine, ptype):
+def child_main(conn, pristine, ptype, posttransform=True):
     import copy
+    import gc
     calls = dict(n=0)
 
     def transform(x):
@@ -136,32 +140,67 @@ def child_main(conn, pristine, ptype):
         # a fresh copy of the dataset object as it was forked (per-process state must not leak between schedules);
         # the Manager proxy itself is shared, not copied
         real = pristine.shared_dict
-        ds = copy.deepcopy(pristine, memo={id(real): real})
+        # shallow copy + one-level copies of plain containers: no reference cycles (a deep copy drags the logger's
+        # object graph along and would be freed by the cyclic collector at an arbitrary later moment)
+        ds = copy.copy(pristine)
+        for k_, v_ in list(vars(ds).items()):
+            if type(v_) in (dict, list, set):
+                setattr(ds, k_, type(v_)(v_))
         gate = Gate(conn, real)
         ds.shared_dict = GateDict(gate)
-        ds.dataset = GatedBase(gate, ptype, len(IDX))
-        ds.transform = transform
-        return ds
+        base = GatedBase(gate, ptype, len(IDX))
+        if posttransform:
+            ds.transform = transform
+        else:
+            # no post-cache transform; the WRAPPED dataset has a transform attribute of its own (torchvision layout),
+            # which is none of the cache's business
+            # (ds.transform is left exactly as the constructor left it: the dataset was built without a transform)
+            base.transform = transform
+        ds.dataset = base
+        return ds, gate
 
-    ds = fresh()
+    ds, gate = fresh()
     while True:
         cmd = conn.recv()
         if cmd[0] == "reset":
-            ds = fresh()
+            gate.active = False
+            old = (ds, gate)
+            ds, gate = fresh()
+            del old        # the objects of the previous schedule go away now (ungated; they hold no reference cycles)
+            pristine.shared_dict.clear()
             conn.send(("resetdone",))
         elif cmd[0] == "access":
             calls["n"] = 0
+            gate.active = True
             try:
                 v = ds[cmd[1]]
+                gate.active = False
                 val, vi = decode(ptype, v)
                 conn.send(("ret", cmd[1], val, vi, calls["n"]))
             except BaseException as e:  # noqa
+                gate.active = False
                 conn.send(("exc", type(e).__name__))
         elif cmd[0] == "clear":
+            gate.active = True
             try:
                 ds.dispose()
+                gate.active = False
                 conn.send(("cleared",))
             except BaseException as e:  # noqa
+                gate.active = False
+                conn.send(("exc", type(e).__name__))
+        elif cmd[0] == "copydrop":
+            # a short-lived copy of the dataset object (what pickling it to a pool / copy.copy produces) goes away:
+            # that is not a dispose() and must not touch the shared cache
+            gate.active = True
+            try:
+                c = copy.copy(ds)
+                del c
+                gc.collect()
+                gate.active = False
+                conn.send(("cleared",))
+            except BaseException as e:  # noqa
+                gate.active = False
                 conn.send(("exc", type(e).__name__))
         elif cmd[0] == "quit":
             return
@@ -169,7 +208,7 @@ def child_main(conn, pristine, ptype):
 
 # ---------------------------------------------------------------- parent side: scheduler
 class Pool:
-    def __init__(self, nprocs, ptype):
+    def __init__(self, nprocs, ptype, posttransform=True):
         core.use_repo()
         from kappadata.caching.shared_dict_dataset import SharedDictDataset
 
@@ -186,7 +225,7 @@ class Pool:
         self.conns, self.procs = [], []
         for _ in range(nprocs):
             a, b = ctx.Pipe()
-            p = ctx.Process(target=child_main, args=(b, self.ds, ptype), daemon=True)
+            p = ctx.Process(target=child_main, args=(b, self.ds, ptype, posttransform), daemon=True)
             p.start()
             self.conns.append(a)
             self.procs.append(p)
@@ -258,6 +297,9 @@ class Pool:
                 if cmd[0] == "a":
                     events.append(dict(a="begin", p=f"p{p + 1}", i=cmd[1]))
                     self.conns[p].send(("access", cmd[1]))
+                elif cmd[0] == "k":
+                    events.append(dict(a="begincopy", p=f"p{p + 1}"))
+                    self.conns[p].send(("copydrop",))
                 else:
                     events.append(dict(a="beginclear", p=f"p{p + 1}"))
                     self.conns[p].send(("clear",))
@@ -310,11 +352,47 @@ WORKLOADS_THOROUGH = WORKLOADS_QUICK[:-1] + [
 ]
 
 
+def loader_trace(ptype, wrapped, num_workers):
+    """the cached dataset itself inside a DataLoader with automatic batching, two epochs"""
+    import torch
+    from kappadata.caching.shared_dict_dataset import SharedDictDataset
+
+    class Plain(torch.utils.data.Dataset):
+        def __len__(self):
+            return len(IDX)
+
+        def __getitem__(self, i):
+            return payload(ptype, int(i))
+
+    base = Plain()
+    order = list(IDX)
+    if wrapped == "subset":
+        order = [2, 0, 3]
+        base = torch.utils.data.Subset(base, order)
+    ev = []
+    try:
+        ds = SharedDictDataset(base, transform=T)
+        dl = torch.utils.data.DataLoader(ds, batch_size=2, shuffle=False, num_workers=num_workers, collate_fn=lambda b: list(b))
+        for epoch in range(2):
+            k = 0
+            for batch in dl:
+                for v in batch:
+                    val, vi = decode(ptype, v)
+                    ev.append(dict(a="plain", p="p1", i=order[k], val=val, vi=vi))
+                    k += 1
+    except BaseException as e:  # noqa
+        ev.append(dict(a="exc", p="p1", type=type(e).__name__))
+    return dict(cfg=dict(workload=f"dataloader:{wrapped}:workers={num_workers}", ptype=ptype, tr=True, nprocs=1, choices=[]),
+                ev=ev)
+
+
 def sequential_history(r, length):
     w = []
     for _ in range(length):
         if r.random() < 0.12:
             w.append(("c",))
+        elif r.random() < 0.08:
+            w.append(("k",))
         else:
             w.append(("a", r.choice(IDX)))
     return [w]
@@ -400,25 +478,39 @@ def run(prop, tier, seed):
     workloads = WORKLOADS_QUICK if quick else WORKLOADS_THOROUGH
     ptypes = ["int", "tensor", "optional"] if quick else ["int", "tuple", "bytes", "tensor", "optional"]
     exhaustive = True
-    for pi, ptype in enumerate(ptypes):
-        pool = Pool(3, ptype)
+    variants = [(pt, True) for pt in ptypes] + [("int", False)]   # (payload type, post-cache transform configured?)
+    for pi, (ptype, tr) in enumerate(variants):
+        pool = Pool(3, ptype, posttransform=tr)
         try:
             for name, wl, warm, limit in workloads:
                 if pi > 0 and len(wl) > 2 and quick:
+                    continue
+                if not tr and name not in ("two_readers_then_again", "hit_vs_clear"):
                     continue
                 wl3 = wl + [[] for _ in range(3 - len(wl))]
                 runs = pool.all_interleavings(wl3, warm=warm, limit=limit, rnd=r if limit else None)
                 if limit and len(runs) >= limit:
                     exhaustive = False
                 for events, choices in runs:
-                    traces.append(dict(cfg=dict(workload=name, ptype=ptype, nprocs=len(wl), choices=choices), ev=events))
+                    traces.append(dict(cfg=dict(workload=name, ptype=ptype, tr=tr, nprocs=len(wl), choices=choices),
+                                       ev=events))
+            # a copy of the dataset object that goes away while another process reads
+            if tr and (pi == 0 or not quick):
+                for events, choices in pool.all_interleavings([[("a", 0), ("k",), ("a", 0)], [("a", 0)], []], warm=0):
+                    traces.append(dict(cfg=dict(workload="copy_dropped", ptype=ptype, tr=tr, nprocs=2, choices=choices),
+                                       ev=events))
             # sequential histories of one process (at most one load between clears)
             for k in range(3 if quick else 20):
                 wl = sequential_history(r, 120 if quick else 200)
                 events, choices, _ = pool.execute(wl + [[], []], [])
-                traces.append(dict(cfg=dict(workload=f"sequential{k}", ptype=ptype, nprocs=1, choices=[]), ev=events))
+                traces.append(dict(cfg=dict(workload=f"sequential{k}", ptype=ptype, tr=tr, nprocs=1, choices=[]), ev=events))
         finally:
             pool.close()
+    # through real DataLoaders with automatic batching (0 and 2 workers), also over a torch Subset
+    for ptype in (["int"] if quick else ["int", "tuple"]):
+        for wrapped in ("plain", "subset"):
+            for nw in (0, 2):
+                traces.append(loader_trace(ptype, wrapped, nw))
     for i, t in enumerate(traces, start=1):
         t["id"] = i
     v.coverage["evaluations"] = len(traces)
